@@ -658,6 +658,7 @@ func TestVerifC38(t *testing.T) {
 		v    c38Viol
 		hist []c38Ev
 		obs  []string
+		ord  int64
 	}
 	best := map[string]violRec{}
 	vcount := map[string]int64{}
@@ -729,7 +730,7 @@ func TestVerifC38(t *testing.T) {
 				for _, v := range r.viol {
 					vcount[v.Key]++
 					if _, ok := best[v.Key]; !ok {
-						best[v.Key] = violRec{v, h, r.obs}
+						best[v.Key] = violRec{v, h, r.obs, transitions}
 					}
 				}
 				if len(r.viol) > 0 {
@@ -754,6 +755,57 @@ func TestVerifC38(t *testing.T) {
 	rep.Count("states", states)
 	rep.Count("transitions", transitions)
 	rep.Count("unexpanded_frontier_states", int64(len(frontier)))
+	// a mechanism that shows on every protected route is one defect of the session check, not one
+	// per route: collapse "<mechanism>:<route>" keys to "<mechanism>" when all routes are hit.
+	byMech := map[string][]string{}
+	for k := range best {
+		if i := strings.IndexByte(k, ':'); i > 0 {
+			byMech[k[:i]] = append(byMech[k[:i]], k)
+		}
+	}
+	for mech, ks := range byMech {
+		if len(ks) < len(cfg.routes) || len(cfg.routes) < 2 {
+			continue
+		}
+		var first violRec
+		var total int64
+		for i, k := range ks {
+			if i == 0 || best[k].ord < first.ord {
+				first = best[k]
+			}
+			total += vcount[k]
+			delete(best, k)
+			delete(vcount, k)
+		}
+		first.v.Detail = "(every protected route) " + first.v.Detail
+		best[mech], vcount[mech] = first, total
+	}
+	// a route that answers both without a cookie and with an unknown token does not check the
+	// session at all: one defect per route, whatever other cookie kinds also got through.
+	byRoute := map[string][]string{}
+	for k := range best {
+		if i := strings.IndexByte(k, ':'); i > 0 && strings.HasSuffix(k[:i], "-answered") {
+			byRoute[k[i+1:]] = append(byRoute[k[i+1:]], k)
+		}
+	}
+	for route, ks := range byRoute {
+		_, a := best["no-cookie-answered:"+route]
+		_, b := best["unknown-token-answered:"+route]
+		if !a || !b {
+			continue
+		}
+		var first violRec
+		var total int64
+		for i, k := range ks {
+			if i == 0 || best[k].ord < first.ord {
+				first = best[k]
+			}
+			total += vcount[k]
+			delete(best, k)
+			delete(vcount, k)
+		}
+		best["route-answers-without-session:"+route], vcount["route-answers-without-session:"+route] = first, total
+	}
 	keys := make([]string, 0, len(best))
 	for k := range best {
 		keys = append(keys, k)
